@@ -88,6 +88,6 @@ theorem C03_shared_line_witness :
     let vp := "MAJOR.MINOR.PATCH".toList
     rewriteLines [{ vp := vp, raw := "a=MAJOR.MINOR.PATCH".toList }, { vp := vp, raw := "b=MAJOR.MINOR.PATCH".toList }] v
         ["a=1.2.3 b=1.2.3".toList] = .ok ["a=1.2.4 b=1.2.4".toList] := by
-  sorry
+  decide +kernel
 
 end BV
